@@ -135,17 +135,28 @@ def run(ctx):
                 rv = s['rv']
                 ops = dict(zip(rv['fields'], rv['ops']))
                 so = ops.get('size')
-                # size operand: Continue payload of `allocate(..)?`
-                k, v = mirq.chase_op(b, so) if so else ('none', None)
-                alloc_bbs = [cb for cb, t in b.calls() if strip_generics(t.get('callee') or '') == ALLOC]
-                if len(alloc_bbs) == 1:
-                    cont = mirq.try_continue_block(b, alloc_bbs[0])
-                    if cont and mirq.dominates(b, cont[0], bb):
-                        # the value must be read from the branch result's Continue payload
-                        if k == 'rv':
-                            p = op_place(v[2]['rv'].get('op', {})) if v[2]['rv']['k'] == 'use' else None
-                            if p and any(isinstance(e, dict) and e.get('dc') == 'Continue' for e in p['p']):
-                                size_ok = True
+                # size operand: every origin is the success payload of the allocate call of this body -- `(allocate(..)?)`, i.e.
+                # the Continue payload of Try::branch(allocate(..)), or the Ok payload of the call result matched explicitly
+                from .lib.facts import callee_name as _cn
+                pl_so = op_place(so) if so else None
+                origins = mirq.move_origins(b, pl_so['l'])[1] if pl_so is not None and not pl_so['p'] else []
+                good = 0
+                for obb, oidx, okind, payload in origins:
+                    if okind != 'proj':
+                        good = -99
+                        continue
+                    names = [e.get('dc') for e in payload['p'] if isinstance(e, dict) and 'dc' in e]
+                    k2, v2 = mirq.chase(b, payload['l'])
+                    src_call = v2[1] if k2 == 'call' else None
+                    if src_call is not None and names[:1] == ['Continue'] and strip_generics(_cn(src_call) or '').endswith('::branch'):
+                        k3, v3 = mirq.chase_op(b, src_call['args'][0])
+                        src_call = v3[1] if k3 == 'call' else None
+                        names = ['Ok']
+                    if src_call is not None and names[:1] == ['Ok'] and strip_generics(_cn(src_call) or '') == ALLOC:
+                        good += 1
+                    else:
+                        good = -99
+                size_ok = good >= 1
             r3.inst({'body': b.id, 'site': mirq.site(b, bb, j), 'size_from_allocate': size_ok}, ok=ok and size_ok)
             if not ok:
                 r3.fail('%s/literal/%s' % (b.nid, adt), mirq.site(b, bb, j), '%s constructed outside its `new` (bypasses allocate)' % adt)
@@ -309,18 +320,42 @@ def run(ctx):
                         return bool(p) and any(isinstance(e, dict) and e.get('n') == 'size_limit' for e in p['p'])
                     return False
                 op = s['rv']['op']
-                if is_total(ka) and is_limit(kb) and op in ('Gt', 'Ge'):
-                    cmp_ok = True
-                if is_limit(ka) and is_total(kb) and op in ('Lt', 'Le'):
-                    cmp_ok = True
-                # the true edge must build Err(AllocationLimitReached)
-                if cmp_ok:
-                    t = b.term(i)
-                    if t['k'] == 'switch' and op_local(t['discr']) == s['place']['l']:
-                        true_bb = t['otherwise']
-                        builds = any(x['k'] == 'assign' and x['rv']['k'] == 'agg' and x['rv'].get('adt') == 'runtime_violation::RuntimeViolation' and x['rv']['v'] == 'AllocationLimitReached'
-                                     for bb2 in b.reachable(true_bb, avoid=[tb for v, tb in t['targets']]) for x in b.blocks[bb2]['stmts'])
-                        cmp_ok = builds
+                MIRROR = {'Ge': 'Le', 'Gt': 'Lt', 'Le': 'Ge', 'Lt': 'Gt'}
+                NEG = {'Ge': 'Lt', 'Gt': 'Le', 'Le': 'Gt', 'Lt': 'Ge'}
+                if is_total(ka) and is_limit(kb):
+                    op_tl = op
+                elif is_limit(ka) and is_total(kb):
+                    op_tl = MIRROR[op]
+                else:
+                    continue
+                # which edge of the test leads to the violation?  follow plain moves / Not to the switch on the result
+                viol_bbs = [bb2 for bb2, j2, x in b.stmts() if x['k'] == 'assign' and x['rv']['k'] == 'agg' and x['rv'].get('adt') == 'runtime_violation::RuntimeViolation' and x['rv']['v'] == 'AllocationLimitReached']
+                cur = s['place']['l']
+                negs = 0
+                for _ in range(6):
+                    sws = [i2 for i2 in range(len(b.blocks)) if b.term(i2)['k'] == 'switch' and op_local(b.term(i2)['discr']) == cur]
+                    if sws:
+                        t2 = b.term(sws[0])
+                        false_t = [x for v, x in t2['targets'] if v == '0']
+                        true_t = t2['otherwise']
+                        on_true = any(mirq.dominates(b, true_t, vb) for vb in viol_bbs) and true_t not in false_t
+                        on_false = bool(false_t) and any(mirq.dominates(b, false_t[0], vb) for vb in viol_bbs) and false_t[0] != true_t
+                        if on_true != on_false:
+                            pol = on_true if negs % 2 == 0 else not on_true
+                            eff = op_tl if pol else NEG[op_tl]
+                            cmp_ok = eff in ('Gt', 'Ge')
+                        break
+                    nxt = None
+                    for i2, j2, s2 in b.stmts():
+                        if s2['k'] == 'assign' and not s2['place']['p']:
+                            if s2['rv']['k'] == 'un' and s2['rv']['op'] == 'Not' and op_local(s2['rv']['a']) == cur:
+                                nxt = s2['place']['l']
+                                negs += 1
+                            elif s2['rv']['k'] == 'use' and op_local(s2['rv']['op']) == cur:
+                                nxt = s2['place']['l']
+                    if nxt is None:
+                        break
+                    cur = nxt
         r8.inst({'fn': b.id, 'shape': 'usize::from(stats.size) > size_limit => Err(AllocationLimitReached)'}, ok=cmp_ok)
         if not cmp_ok:
             r8.fail('allocate/compare', mirq.site(b, 0), 'allocate no longer compares the accounted total (after adding) against size_limit with the violation on the exceeding side')
